@@ -63,6 +63,8 @@ def h_retarget(eng, fmt, pie, a_int, b_int, request, reverse=False, return_edges
               ("u_icall", NOP + ICALL), ("u_inext", NOP + RET), ("u_ijmp", NOP + IJMP),
               ("u_loop", NOP + b"\xe2\x00"), ("u_lnext", NOP + RET),
               ("v_call", NOP + CALL), ("v_next", NOP + RET), ("v_lea", LEA + RET),
+              # a conditional jump whose target is the physically next block: Branch and Fallthrough lead to the same block
+              ("u_jfa", NOP + b"\x0f\x84\x00\x00\x00\x00"),
               ("fa", NOP + RET), ("fb", NOP + RET), ("fc", NOP + RET)]
     contents = b"".join(c for _, c in chunks)
     bi = gtirb.ByteInterval(contents=contents, address=0x1000, section=text)
@@ -117,6 +119,7 @@ def h_retarget(eng, fmt, pie, a_int, b_int, request, reverse=False, return_edges
         e2 = gtirb.SymAddrConst(0, A, {A_.GOT, A_.PCREL} if (fmt == "elf" and pie) else set())
         bi.symbolic_expressions[blk["u_ijmp"].offset + 3] = e2
         uses["u_ijmp"] = (bi, blk["u_ijmp"].offset + 3, "control_flow", "A", 0, e2)
+        use("u_jfa", bi, blk["u_jfa"].offset + 3, "control_flow", "A", 0, a_int)
         # loop A: a relative branch that capstone files under BRANCH_RELATIVE only
         use("u_loop", bi, blk["u_loop"].offset + 2, "control_flow", "A", 0, a_int)
     use("u_lea", bi, blk["u_lea"].offset + 3, "code_ref", src, addend_lea, True if src == "D" else a_int)
@@ -135,7 +138,9 @@ def h_retarget(eng, fmt, pie, a_int, b_int, request, reverse=False, return_edges
         cfg.add(gtirb.Edge(blk["u_icall"], ref(A), lbl(ET.Call, direct=False)))
         cfg.add(gtirb.Edge(blk["u_ijmp"], ref(A), lbl(ET.Branch, direct=False)))
         cfg.add(gtirb.Edge(blk["u_loop"], ref(A), lbl(ET.Branch, cond=True)))
+        cfg.add(gtirb.Edge(blk["u_jfa"], ref(A), lbl(ET.Branch, cond=True)))
     cfg.add(gtirb.Edge(blk["u_loop"], blk["u_lnext"], lbl(ET.Fallthrough)))
+    cfg.add(gtirb.Edge(blk["u_jfa"], blk["fa"], lbl(ET.Fallthrough)))
     cfg.add(gtirb.Edge(blk["u_call"], blk["u_next"], lbl(ET.Fallthrough)))
     cfg.add(gtirb.Edge(blk["u_next"], blk["u_jmp"], lbl(ET.Fallthrough)))
     cfg.add(gtirb.Edge(blk["u_icall"], blk["u_inext"], lbl(ET.Fallthrough)))
@@ -155,7 +160,7 @@ def h_retarget(eng, fmt, pie, a_int, b_int, request, reverse=False, return_edges
     fb = _auxdata.function_blocks.get_or_insert(m)
     fe = _auxdata.function_entries.get_or_insert(m)
     fn = _auxdata.function_names.get_or_insert(m)
-    for name, blocks, s in (("U", ["u_call", "u_next", "u_jmp", "u_lea", "u_icall", "u_inext", "u_ijmp", "u_loop", "u_lnext"], None), ("V", ["v_call", "v_next", "v_lea"], None),
+    for name, blocks, s in (("U", ["u_call", "u_next", "u_jmp", "u_lea", "u_icall", "u_inext", "u_ijmp", "u_loop", "u_lnext", "u_jfa"], None), ("V", ["v_call", "v_next", "v_lea"], None),
                             ("FA", ["fa"], A if a_int else None), ("FB", ["fb"], B if b_int and request != "alias" else None),
                             ("FC", ["fc"], C)):
         u = uuid.uuid4()
@@ -260,6 +265,9 @@ def h_retarget(eng, fmt, pie, a_int, b_int, request, reverse=False, return_edges
     eng.check(edges_of(blk["u_icall"], ET.Call) == {ref(syms[mapping["A"]])}, "call edge of the retargeted call through the GOT")
     eng.check(edges_of(blk["u_ijmp"], ET.Branch) == {ref(syms[mapping["A"]])}, "branch edge of the retargeted jump through the GOT")
     eng.check(edges_of(blk["u_loop"], ET.Branch) == {ref(syms[mapping["A"]])}, "branch edge of the retargeted loop instruction")
+    eng.check(edges_of(blk["u_jfa"], ET.Branch) == {ref(syms[mapping["A"]])}, "branch edge of the retargeted jump to the next block")
+    eng.check(edges_of(blk["u_jfa"], ET.Fallthrough) == {blk["fa"]} or request == "with_insert",
+              "the jump to the next block no longer falls through to the physically next block after its target was retargeted")
     eng.check(edges_of(blk["v_call"], ET.Call) == {ref(syms[mapping.get("T", "T")])}, "call edge of the bystander call")
     other_before = {(s, t, ty) for (s, t, ty) in edges_before if ty in (ET.Fallthrough,)}
     eng.check(other_before <= {(e.source, e.target, e.label.type) for e in cfg} or request == "with_insert",
